@@ -258,6 +258,10 @@ def rule_request_line_rejections(ctx):
                     continue                                  # version text not recognised / not 1.0 or 1.1
                 if "is_valid_method" in txt:
                     continue
+                # (a one-line `is_valid_method` is expanded into its test: membership of the method in the table of method names)
+                if any(x[0] == "const" and (b"GET" in (x[1] if isinstance(x[1], (bytes, bytearray)) else b"") or (isinstance(x[1], str) and x[1] == "GET") or
+                                             (x[2] or "").endswith("VALID_METHODS") or (x[3] or "").startswith("&[&str;")) for y in ([c[1]] if c[0] != "cmp" else [c[2], c[3]]) for x in T.walk(y)):
+                    continue
                 if c[0] in ("variant", "variant_in") and T.strip(c[1])[0] == "agg":
                     continue                                  # a `?` on a value built just before
                 if c[0] == "bool" and T.strip(c[1])[0] == "const":
@@ -595,7 +599,10 @@ def rule_R6(ctx):
         three = any(c[0] == "cmp" and c[1] in ("Ne", "Eq") and T.fold_int(c[3]) == 3 and ((c[1] == "Eq") == c[4]) for c in cs)
         ver = any(c[0] in ("variant", "variant_in") and set([c[2]] if c[0] == "variant" else c[2]) <= {"V10", "V11"} and c[3] for c in cs) or \
             any(c[0] == "int" for c in cs)
-        meth = any(c[0] == "bool" and c[1][0] == "call" and c[1][1].endswith("is_valid_method") and c[2] for c in cs)
+        meth = any(c[0] == "bool" and c[1][0] == "call" and c[1][1].endswith("is_valid_method") and c[2] for c in cs) or \
+            any(c[0] in ("bool", "cmp") and any(x[0] == "const" and ((isinstance(x[1], (bytes, bytearray)) and b"GET" in x[1]) or x[1] == "GET" or
+                                                                 (x[2] or "").endswith("VALID_METHODS") or (x[3] or "").startswith("&[&str;"))
+                                                for y in ([c[1]] if c[0] == "bool" else [c[2], c[3]]) for x in T.walk(y)) for c in cs)
         ctx.check(three and meth, "R6", "request-line:shape", "three whitespace separated parts, valid method%s" % (", version in {1.0, 1.1}" if ver else ""),
                   "request line acceptance changed (three parts=%s, method check=%s)" % (three, meth), ctx.loc(rb, blk))
 
@@ -642,7 +649,48 @@ def rule_routing_ignores_body(ctx):
     C16.rule_preface_is_prefix(R.Retag(ctx, "C16."))
 
 
+def _method_names(b):
+    import re as _re
+    out = set()
+
+    def walk(o):
+        if isinstance(o, dict):
+            v = o.get("v")
+            if isinstance(v, dict) and isinstance(v.get("str"), str) and _re.fullmatch(r"[A-Z][A-Z-]{2,15}", v["str"]):
+                out.add(v["str"])
+            for x in o.values():
+                walk(x)
+        elif isinstance(o, list):
+            for x in o:
+                walk(x)
+    for blk in b.blocks:
+        walk(blk)
+    return out
+
+
+def rule_method_tables_agree(ctx):
+    """R1: the two tables of request methods say the same: every method the request-line parser accepts (`is_valid_method`) is also admitted
+    by the gate that decides whether a payload is handed to that parser (`can_process_request`) - a method missing from the gate's table
+    is a well-formed request the analyzer never reports"""
+    P = ctx.program
+    pb = [b for b in P.method("Http1Parser", "is_valid_method")]
+    gb = [b for b in P.bodies.values() if b.crate == "huginn_net_http" and b.name == "can_process_request" and "Http1Processor" in b.path]
+    if len(pb) != 1 or len(gb) != 1:
+        ctx.ok("R1", "method-tables", "no separate is_valid_method / can_process_request pair to compare (%d / %d)" % (len(pb), len(gb)))
+        return
+    pm, gm = _method_names(pb[0]), _method_names(gb[0])
+    if not pm or not gm:
+        ctx.ok("R1", "method-tables", "method names are not literal in both functions (parser %d, gate %d): nothing to compare" % (len(pm), len(gm)))
+        return
+    for m in sorted(pm - gm):
+        ctx.fail("R1", "gate-admits:" + m, "`%s` is a method the request-line parser accepts, but the HTTP/1 gate can_process_request does not list it: a well-formed "
+                 "`%s <target> HTTP/1.1` head is never handed to the parser and the analyzer reports nothing for it" % (m, m), ctx.loc(gb[0]))
+    ctx.ok("R1", "method-tables", "%d methods accepted by the parser, %d admitted by the gate" % (len(pm), len(gm)))
+    ctx.floor("R1", "methods in the parser's table", len(pm), 9)
+
+
 def run(ctx):
+    rule_method_tables_agree(ctx)
     rule_routing_ignores_body(ctx)
     rule_rendering(ctx)
     rule_adapters_pass_buffer(ctx)
